@@ -4,11 +4,12 @@ connections) against a fresh ASan dbus-daemon and returns one observation line
 per event, in the same vocabulary as ml/match/driver.ml prints for the model.
 
 Scenario = {"limit": int, "events": [[op, conn, ...], ...]} with
-  ["hello", c]            connect + Hello (conn 0, the controller, is implicit and first)
+  ["hello", c]            connect + Hello (conn 0, the controller, is implicit and first);
+  ["hello", c, "fd"]      the same, negotiating NEGOTIATE_UNIX_FD during authentication
   ["own", c, name]        RequestName (name is unowned)
   ["add", c, text]        AddMatch
   ["rm", c, text]         RemoveMatch
-  ["send", c, type, path, iface, member, dest, args]   args = [["s", str] | ["o", str] | ["x"]]
+  ["send", c, type, path, iface, member, dest, args]   args = [["s", str] | ["o", str] | ["x"] | ["h"]]  (["h"] = one unix fd, sent with SCM_RIGHTS)
   ["disc", c]             close the socket, wait until the bus has processed it
 Strings may contain "{Uk}" = unique name of connection k (":1.k'" by Hello order).
 Trusted glue; no sleeps: ordering comes from GetId round trips and from the
@@ -16,7 +17,7 @@ controller's NameOwnerChanged subscription."""
 import os, re, sys, time
 sys.path.insert(0, os.path.dirname(os.path.abspath(__file__)))
 from rawbus import (Daemon, RawConn, Msg, METHOD_CALL, METHOD_RETURN, ERROR, SIGNAL, F_PATH, F_INTERFACE, F_MEMBER, F_ERROR_NAME,
-                    F_REPLY_SERIAL, F_DESTINATION, F_SENDER, ALLOW_ALL)
+                    F_REPLY_SERIAL, F_DESTINATION, F_SENDER, F_UNIX_FDS, ALLOW_ALL)
 
 DBUS = "org.freedesktop.DBus"
 CTRL_RULE = "type='signal',sender='org.freedesktop.DBus',interface='org.freedesktop.DBus',member='NameOwnerChanged',path='/org/freedesktop/DBus'"
@@ -92,7 +93,7 @@ def model_lines(sc):
     for e in sc["events"]:
         op = e[0]
         if op == "hello":
-            lines.append("hello %d %s" % (e[1], hx(":1.%d" % plan[e[1]])))
+            lines.append("hello %d %s%s" % (e[1], hx(":1.%d" % plan[e[1]]), " fd" if len(e) > 2 and e[2] == "fd" else ""))
         elif op in ("own", "add", "rm"):
             lines.append("%s %d %s" % (op, e[1], hx(e[2]) or "-"))
         elif op == "send":
@@ -107,7 +108,7 @@ def msg_desc(f):
 
     def o(x):
         return "-" if x is None else hx(x)
-    a = ",".join(("x" if x[0] == "x" else x[0] + hx(x[1])) for x in args) or "-"
+    a = ",".join((x[0] if x[0] in ("x", "h") else x[0] + hx(x[1])) for x in args) or "-"
     return "%d %s %s %s %s %s" % (t, o(path), o(iface), o(member), o(dest), a)
 
 
@@ -157,6 +158,12 @@ class Runner:
             for m in conn.inbox:
                 if pred(m):
                     counts[c] = counts.get(c, 0) + 1
+                    for fd in m.fds:
+                        try:
+                            os.close(fd)
+                        except OSError:
+                            pass
+                    m.fds = []
                 else:
                     keep.append(m)
             conn.inbox = keep
@@ -174,19 +181,21 @@ class Runner:
                 and m.fields.get(F_DESTINATION) is None and len(m.body) == 3 and m.body[0] == name)
 
     # -- events ---------------------------------------------------------------------
-    def connect(self):
+    def connect(self, want_fds=False):
         # the socket file exists after bind(); listen() may not have happened yet: retry (startup only)
         t_end = time.time() + 10
         while True:
             try:
-                return self.d.connect()
+                return self.d.connect(want_fds=want_fds)
             except ConnectionRefusedError:
                 if time.time() > t_end or not self.alive():
                     raise
                 time.sleep(0.002)
 
-    def ev_hello(self, c):
-        conn = self.connect()
+    def ev_hello(self, c, fd=False):
+        conn = self.connect(want_fds=fd)
+        if conn.can_fds != fd:
+            return "?fd-negotiation %s" % conn.can_fds
         self.conns[c] = conn
         try:
             r = conn.hello()
@@ -245,19 +254,33 @@ class Runner:
             fields[F_ERROR_NAME] = "t.Err"
         if t in (ERROR, METHOD_RETURN):
             fields[F_REPLY_SERIAL] = 4000000
-        sig, body = "", []
+        sig, body, nfds = "", [], 0
         for a in args:
             if a[0] == "x":
                 sig += "u"
                 body.append(7)
+            elif a[0] == "h":
+                sig += "h"
+                body.append(nfds)
+                nfds += 1
             else:
                 sig += a[0]
                 body.append(a[1])
+        fds = []
+        if nfds:
+            fields[F_UNIX_FDS] = nfds
+            for _ in range(nfds):
+                r, w = os.pipe()
+                os.close(w)
+                fds.append(r)
         m = Msg(t, NO_REPLY, conn.next_serial(), fields, sig, tuple(body))
         try:
-            conn.send(m)
+            conn.send(m, fds)
         except (OSError, IOError):
             return "F"
+        finally:
+            for fd in fds:
+                os.close(fd)
         if not self.barrier_all():
             return "F"
         me = self.unique[c]
@@ -300,7 +323,7 @@ class Runner:
                 for e in self.sc["events"]:
                     op = e[0]
                     if op == "hello":
-                        r = self.ev_hello(e[1])
+                        r = self.ev_hello(e[1], len(e) > 2 and e[2] == "fd")
                     elif op == "own":
                         r = self.ev_own(e[1], e[2])
                     elif op == "add":
@@ -327,6 +350,11 @@ class Runner:
             obs.append("?exception %r" % (ex,))
         finally:
             for conn in self.conns.values():
+                for fd in list(conn.fdq) + [f for m in conn.inbox for f in getattr(m, "fds", [])]:
+                    try:
+                        os.close(fd)
+                    except OSError:
+                        pass
                 conn.close()
             rc, err = self.d.stop()
         return obs, rc, err
